@@ -11,6 +11,10 @@ SRC = open(os.path.join(HERE, 'harness', 'c12_mem.cpp')).read()
 
 
 def harness(n, cs, tl, corrupt=None):
+    if cs > 0x20000:
+        # container size above the 128 KiB default: the thresholds of the public API, not the scaled-down ones
+        return '#define UNSCALED 1\n#define VP_FS_CAP %d\n#define NOBJ %d\n#define CFG_CONTAINER %d\n#define TEXTLEN %d\n' % (
+            n * (tl + 64) + 8 * (cs + 64), n, cs, tl) + SRC
     return '#define VP_FS_CAP 60000\n#define NOBJ %d\n#define CFG_CONTAINER %d\n#define TEXTLEN %d\n' % (n, cs, tl) + \
         ('#define CORRUPT_OBJECT %d\n' % corrupt if corrupt is not None else '') + SRC
 
@@ -20,10 +24,17 @@ def tasks(tier, seed):
     ts = []
 
     def sizes_for(cs, tl):
+        if cs > 0x20000:
+            # saturation measured natively: the peak is flat from about 10 containers on (two containers in the stream,
+            # each with its stored copy, ten queued objects, one in flight); 5 containers are NOT enough (my first version
+            # of this variant compared an unsaturated file with a saturated one)
+            lo = (10 * cs) // (tl + 48) + 2
+            return (lo, lo + lo // 2)
         # both files must be long enough to saturate the back-pressure thresholds (buffer = cs + tl, 2 queued objects)
         lo = (4 * (2 * cs + tl)) // (tl + 48) + 2
         return (lo, 3 * lo) if tier == 'quick' else (lo, 3 * lo, 6 * lo)
     variants = [(cs, tl, None) for cs, tl in cfgs] + [(cs, tl, 2) for cs, tl in cfgs[:1 if tier == 'quick' else 2]]
+    variants.append((140000, 30000, None))
     for cs, tl, corrupt in variants:
         sizes = sizes_for(cs, tl)
         sfx = '' if corrupt is None else '.corrupt%d' % corrupt
